@@ -14,6 +14,8 @@ MIRSYM_NOTE = ('Trusted base: the MIRSYM interpreter (/verif/mirsym) and its lib
 CLAIMED = {
     'C01': dict(text='Bounded model checking of the real MIR of ParsedFormula::eval / eval_recursive / replace_var / BDDEnv::fp on syntax-tree sketches (concrete shape up to 2-3 internal nodes; every operator, quantifier kind, counting kind, 64-bit constant, fixed-point start and variable id symbolic over 3 atoms, so bound/free reuse and shadowing are included) against an independent reference semantics of the language; BDDEnv callees replaced by contracts that lemma units of the same run discharge on the real MIR of src/bdd.rs; both overflow profiles.',
                 design='DESIGN.md 4/C01'),
+    'C06': dict(text='Bounded model checking of BDDEnv::fp with a symbolic total transformer (all functions on 1..2 variables, 8 / 64 unknown table bits) and of lfp/gfp formulas: fixed-point sketches (bodies up to 3 internal nodes, all labels symbolic, shadowing by inner binders included) through the real MIR against the reference iteration semantics, termination within the unrolling bound, plus extremality (below/above every fixed point P, P an unknown table) of the reference result for syntactically monotone bodies.',
+                design='DESIGN.md 4/C06'),
     'C13': dict(text='Bounded model checking of history independence and sharing: two-operation histories in one environment with the state threaded through the real code (k=2), every table lookup free to hit or miss in all other checks, the table invariant established by new() and preserved by every insert, and per-allocation ownership tracking showing every returned node and descendant is the table\'s node.',
                 design='DESIGN.md 4/C13'),
     'C02': dict(text='Bounded model checking of the real MIR of every BDDEnv operation on arbitrary canonical operands (symbolic truth tables over k symbolic ordered ids): '
